@@ -586,7 +586,7 @@ func CheckC12(tier string, seed uint64, rep *core.Reporter) (*core.Evidence, err
 			defects := []string{"no-go-file", "empty-go-file", "ill-typed", "syntax-error", "no-token", "no-parser-struct", "two-parser-structs",
 				"generic-parser-struct", "arity-mismatch", "return-mismatch", "two-results", "orphan-method", "missing-method",
 				"iface-return-first", "iface-return-last", "any-return-first", "any-param", "value-receiver", "ptr-embedded-lox", "extra-methods",
-				"embed-missing-file", "bad-build-constraint", "junk-last-go-file", "empty-last-go-file"}
+				"embed-missing-file", "bad-build-constraint", "junk-last-go-file", "empty-last-go-file", "aliases", "aliases"}
 			nd := 6
 			if tier == "thorough" {
 				nd = 12
@@ -645,6 +645,24 @@ func CheckC12(tier string, seed uint64, rep *core.Reporter) (*core.Evidence, err
 				doRun(&c12Run{ID: fmt.Sprintf("%d-lx0", wi), Files: ls.ProjectFiles(lg), Kind: "lexer-only-spec",
 					Op: Op{Kind: "Gen", Binary: "sim", Map: randMap(r), Cwd: cwdModes[r.Intn(len(cwdModes))]}})
 				doRun(&c12Run{ID: fmt.Sprintf("%d-lx1", wi), Files: ls.ProjectFiles(lg), Pre: clone(), Kind: "lexer-only-spec",
+					Op: Op{Kind: "Gen", Binary: []string{"sim", "plain"}[r.Intn(2)], Map: randMap(r), Cwd: cwdModes[r.Intn(len(cwdModes))]}})
+			}
+			// grammar files with unusual names: not valid UTF-8, a line feed, blanks, a leading dash
+			for k, weird := range []string{"caf\xe9.lox", "two\nlines.lox", "with blank.lox", "-dash.lox", "\u00fcml\u4e16.lox"} {
+				if k%2 != wi%2 {
+					continue
+				}
+				fs := map[string]string{}
+				renamed := false
+				for _, n := range sortedKeys(files) {
+					if strings.HasSuffix(n, ".lox") && !renamed {
+						fs[weird] = files[n]
+						renamed = true
+					} else {
+						fs[n] = files[n]
+					}
+				}
+				doRun(&c12Run{ID: fmt.Sprintf("%d-fn%d", wi, k), Files: fs, Kind: "unusual-file-name", Faults: []string{fmt.Sprintf("%q", weird)},
 					Op: Op{Kind: "Gen", Binary: []string{"sim", "plain"}[r.Intn(2)], Map: randMap(r), Cwd: cwdModes[r.Intn(len(cwdModes))]}})
 			}
 			// declarations made twice: a mode block, a token, a parser rule, a macro
